@@ -63,6 +63,14 @@ def cases(tier):
                         out.append({**spec, 'io': 'reopen'})
                     if start_index == 1 and fill == 'fillattr' and coords_as == 'var':
                         out.append({**spec, 'fill_value': 0})
+                    if coords_as == 'var' and supplied:
+                        # each supplied table with its own index base (the face-node table keeps the other one)
+                        other = 1 - start_index
+                        out.append({**spec, 'start_index_by_table': {name: other for name in supplied}, 'omit_zero_start_index': bool(len(supplied) % 2)})
+                    if coords_as == 'var' and mode == 'declared':
+                        out.append({**spec, 'extra_width': 1})
+                    if 'edge_face' in supplied and coords_as == 'var':
+                        out.append({**spec, 'edge_face_missing_first': True})
     if tier == 'thorough':
         # one mesh above 46341 nodes (node count squared exceeds int32): derived tables only
         nodes, faces = builders._lattice_mesh(222, 222)
@@ -134,6 +142,7 @@ def check_once(rec, case, ds, truth, fp):
     tables = truth.tables
     nedge = len(tables['edge_node'])
 
+    tables = truth.tables
     rec.check(masked_rows(face_node) == pad(faces, width), f"{fp}/face-node-differs",
               "normalised face_node_array differs from the mesh's faces", pad(faces, width), masked_rows(face_node))
     try:
